@@ -98,7 +98,7 @@ EmitCase == Complete => PrintT(<<"CASE", ToJson(CaseRec)>>)
 (* inserted comments.                                                       *)
 (***************************************************************************)
 OpChars == {"&&", "||", "|", "&", ";", ";;", "(", ")", "<", ">", ">>", ">|", "<>", ">&", "<&", "<<", "<<-", "((", "))"}
-IsOpTok(t) == t.t \in OpChars /\ ~(t.t = ")" /\ t.gap = "adj")   \* an adjacent ")" closes $( ) : part of a word
+IsOpTok(t) == t.t \in OpChars /\ ~(t.t = ")" /\ (t.gap = "adj" \/ t.nlk = "cs"))   \* a ")" that closes $( ) is part of a word
 
 (* a single blank between a and b may be dropped when one of them is an     *)
 (* operator and the two do not fuse into another token                      *)
@@ -118,6 +118,9 @@ InsAfter(ts, i, t) == SubSeq(ts, 1, i) \o <<t>> \o SubSeq(ts, i + 1, Len(ts))   
 
 Repre(ts) == WithPre(ts)
 
+\* the m-th smallest element of a set of numbers
+NthOf(S, m) == CHOOSE x \in S : Cardinality({y \in S : y < x}) = m - 1
+
 Variants(ts0) ==
     LET ts == WithPre(ts0)
         n  == Len(ts)
@@ -131,13 +134,19 @@ Variants(ts0) ==
         \* (only at separator newlines: see known finding F-C09-continuation-in-linebreak)
         comment1 == {Variant("comment-col1", i, SetPre(ts, i, ts[i].pre \o " \\\n# k" \o ToString(i)), <<" k" \o ToString(i)>>)
                        : i \in {j \in 2..n : IsNL(ts[j]) /\ ts[j].nlk = "sep" /\ ~IsNL(ts[j - 1]) /\ ~ts[j - 1].lb}}
+        \* a comment in front of EVERY newline at once: all of them come back, in source order
+        nls      == {j \in idx : IsNL(ts[j])}
+        commentall == IF Cardinality(nls) < 2 THEN {}
+                      ELSE {Variant("comment-all", 0,
+                                    [j \in idx |-> IF IsNL(ts[j]) THEN [ts[j] EXCEPT !.pre = ts[j].pre \o " # c" \o ToString(j) \o " x"] ELSE ts[j]],
+                                    [m \in 1..Cardinality(nls) |-> " c" \o ToString(NthOf(nls, m)) \o " x"])}
         cont     == {Variant("continuation", i, SetPre(ts, i, " \\\n"), <<>>) : i \in {j \in 2..n : ts[j].pre = " " /\ ~IsNL(ts[j])}}
         semi     == {Variant("semi2nl", i, Repre([ts EXCEPT ![i].t = "\n"]), <<>>) : i \in {j \in idx : ts[j].semi}}
         blankln  == {Variant("blankline", i, Repre(InsAfter(ts, i, NLTok)), <<>>) : i \in {j \in idx : ts[j].lb}}
         eofcmt   == IF n > 0 /\ IsNL(ts[n]) /\ HdList(ts, 1) = <<>>
                     THEN {Variant("comment-eof", n, SetPre(SubSeq(ts, 1, n - 1) \o <<[ts[n] EXCEPT !.t = ""]>>, n, " #eof"), <<"eof">>)}
                     ELSE {}
-    IN  blank \cup tab \cup noblank \cup comment \cup comment1 \cup cont \cup semi \cup blankln \cup eofcmt
+    IN  blank \cup tab \cup noblank \cup comment \cup commentall \cup comment1 \cup cont \cup semi \cup blankln \cup eofcmt
 
 (* C09: the base program together with every single layout transformation *)
 LayoutRec == LET c == CaseRec IN
